@@ -21,11 +21,6 @@ pub mod zstd {
     }
 }
 
-#[verifier::external_type_specification]
-#[verifier::external_body]
-#[verifier::reject_recursive_types(T)]
-pub struct ExCursor<T>(std::io::Cursor<T>);
-
 /// R7 shim: body IS the replaced expression `Cursor::new(v)`; an in-memory cursor is a reliable source of v's bytes
 #[verifier::external_body]
 pub fn shim_cursor_vec(v: Vec<u8>) -> (r: std::io::Cursor<Vec<u8>>)
